@@ -186,71 +186,216 @@ def number_format(rep, prog, rx_pos, r_pos):
         rep.violation("C16.number-format", prog, wp[0], None, "reader cannot parse the writer's number format", "tokens %s written with %r are not matched entirely by the reader's regex %r" % (bad[:3], fmt, pat))
 
 
+def _emissions(fn):
+    """(template, node) of everything streamed into the file, in program order"""
+    return emitted_templates(fn)
+
+
+def _to_strings(fn, node):
+    """std::to_string calls that contribute to the streamed expression `node` (through string locals)"""
+    from ..model import def_chain
+    out = []
+    for x in def_chain(fn, node, depth=3):
+        for y in walk(x):
+            if y.get("k") == "CallExpr" and y.get("callee") == "std::to_string" and not any(y is z for z in out):
+                out.append(y)
+    return out
+
+
+def _chain_callees(fn, e, depth=6):
+    from ..model import def_chain
+    out = set()
+    for x in def_chain(fn, e, depth=depth):
+        for y in walk(x):
+            if is_call(y) and y.get("callee"):
+                out.add(y["callee"])
+    return out
+
+
+def _loop_bound_text(fn, loop):
+    from ..model import expand_text
+    if loop.get("k") == "CXXForRangeStmt":
+        return expand_text(fn, loop["range"]) + ".size()"
+    c = strip(loop.get("cond") or {})
+    try:
+        d = loop["init"]["decls"][0]
+        zero = strip(d["init"]).get("v") in (0, "0")
+        lhs = strip(c["c"][0])
+        inc = strip(loop.get("inc") or {})
+        canonical = zero and lhs.get("k") == "DeclRefExpr" and lhs["ref"]["did"] == d["did"] and inc.get("op", "").replace("post", "").replace("pre", "") == "++" and strip(inc["c"][0])["ref"]["did"] == d["did"]
+    except (KeyError, IndexError, TypeError):
+        return None
+    if canonical and c.get("k") == "BinaryOperator" and c.get("op") in ("<", "!="):
+        return expand_text(fn, c["c"][1])
+    return None
+
+
+def _is_cell_count(txt, lst):
+    return txt.strip("()") == "%s.size" % lst or txt in ("%s.size()" % lst, "(%s.size())" % lst)
+
+
 def declared_counts(rep, prog, wfile, wcell, warr):
-    # POINTS: count lambda uses get_node_lst().size(); extractor get_flat_node_coord_lst() emits 3 per node of node_lst_
-    lam_count = [n for n in walk(wfile["body"]) if n.get("k") == "Var" and n.get("name") == "get_cell_nb_nodes"]
-    lam_pos = [n for n in walk(wfile["body"]) if n.get("k") == "Var" and n.get("name") == "node_pos_extractor"]
-    ok = False
-    if lam_count and lam_pos:
-        c_src = render(lam_count[0]["init"])
-        p_calls = [x.get("callee") for x in walk(lam_pos[0]["init"]) if is_call(x)]
-        cnt_calls = [x.get("callee") for x in walk(lam_count[0]["init"]) if is_call(x)]
-        flat = prog.fn("cell::get_flat_node_coord_lst")
-        loops = [n for n in walk(flat["body"]) if n.get("k") == "CXXForRangeStmt" and render(n["range"]) == "node_lst_"]
-        pushes = [x for x in walk(loops[0]["body"]) if x.get("k") == "CXXMemberCallExpr" and x.get("callee", "").endswith("::push_back")] if loops else []
-        axes = [strip(call_args(x)[0]).get("callee") for x in pushes]
-        fi = prog.index(flat)
-        uncond = all(fi.enclosing(x, ("IfStmt",)) is None for x in pushes)
-        ok = "cell::get_node_lst" in cnt_calls and any(c and c.endswith("::size") for c in cnt_calls) and "cell::get_flat_node_coord_lst" in p_calls and axes == ["vec3::dx", "vec3::dy", "vec3::dz"] and uncond
-        total = [n for n in walk(wfile["body"]) if n.get("k") == "Var" and n.get("name") == "total_nb_nodes"]
-        ok = ok and total and "back" in render(total[0]["init"]) and "node_id_offset_lst" in render(total[0]["init"])
-    if ok:
-        rep.ok("C16.declared-counts", prog, wfile, None, "POINTS count = sum of node_lst_.size(); coordinates = (dx,dy,dz) of every element of node_lst_")
+    from ..model import expand_text, def_chain
+    # ---- POINTS: the declared count is the last partial sum of the cells' node_lst sizes; the coordinates come from
+    # get_flat_node_coord_lst, which emits dx,dy,dz of every element of node_lst_
+    pl = [(t, n) for t, n in _emissions(wfile) if "POINTS " in t]
+    why = []
+    if not pl:
+        why.append("no POINTS line")
     else:
-        rep.violation("C16.declared-counts", prog, wfile, None, "declared number of points differs from the coordinates written", "the POINTS count must be the sum of the cells' node_lst sizes and get_flat_node_coord_lst must emit dx,dy,dz for every element of node_lst_ unconditionally")
-    # per-cell record
-    fi = prog.index(wcell)
-    decl = [n for n in walk(wcell["body"]) if n.get("k") == "Var" and n.get("name") == "nb_int_cell"]
-    rec_ok = False
-    if decl:
-        txt = render(decl[0]["init"]).replace(" ", "")
-        rec_ok = bool(re.match(r"^\(1\+\(.*get_face_lst\(\).*size\(\)\*4\)\)$", txt)) or ("get_face_lst" in txt and "*4" in txt and txt.startswith("(1+"))
-    three = [n for n in walk(wcell["body"]) if n.get("k") == "CallExpr" and n.get("callee") == "std::to_string" and strip(call_args(n)[0]).get("k") == "IntegerLiteral"]
-    ids_loop = [n for n in walk(wcell["body"]) if n.get("k") == "CXXForRangeStmt" and "get_node_ids" in render(n["range"])]
-    arr3 = bool(ids_loop) and "std::array<unsigned int, 3>" in strip(ids_loop[0]["range"]).get("t", "")
-    lit3 = bool(three) and strip(call_args(three[0])[0]).get("v") == "3"
-    off = False
-    for n in walk(wcell["body"]):
-        if n.get("k") == "CallExpr" and n.get("callee") == "std::to_string" and ids_loop and any(x is n for x in walk(ids_loop[0]["body"])):
-            a = strip(call_args(n)[0])
-            if a.get("k") == "BinaryOperator" and a.get("op") == "+" and {render(a["c"][0]).split("#")[0], render(a["c"][1]).split("#")[0]} == {ids_loop[0]["var"]["name"], "node_id_offset"}:
-                off = True
-    offdecl = [n for n in walk(wcell["body"]) if n.get("k") == "Var" and n.get("name") == "node_id_offset"]
-    off = off and offdecl and re.match(r"^node_id_offset_lst\[i", render(offdecl[0]["init"]).replace("#", "[") .replace("[[", "[")) is not None or (off and offdecl and "node_id_offset_lst[i" in re.sub(r"#\d+", "", render(offdecl[0]["init"])))
-    if rec_ok and arr3 and lit3 and off:
-        rep.ok("C16.declared-counts", prog, wcell, decl[0], "cell record: declares 1+4F integers; emits F, then per face the literal 3 and the 3 node ids + the cell's own offset")
+        ts = _to_strings(wfile, pl[0][1])
+        if len(ts) != 1:
+            why.append("%d numbers in the POINTS line" % len(ts))
+        else:
+            callees = _chain_callees(wfile, call_args(ts[0])[0])
+            need = {"a last-element read (.back())": any(c.endswith("::back") for c in callees),
+                    "the partial sums of the per-cell counts": any(c.startswith("partial_sum_vector") or c.startswith("mesh_writer::partial_sum_vector") or c.startswith("std::partial_sum") for c in callees),
+                    "cell::get_node_lst().size()": "cell::get_node_lst" in callees and any(c.endswith("::size") for c in callees)}
+            why += ["the declared number of points is not derived from %s" % k for k, v in need.items() if not v]
+    wp = [c for c in walk(wfile["body"]) if is_call(c) and c.get("callee", "").startswith("mesh_writer::write_point_data")]
+    if len(wp) != 1 or "cell::get_flat_node_coord_lst" not in _chain_callees(wfile, call_args(wp[0])[-1]):
+        why.append("the coordinates are not produced by cell::get_flat_node_coord_lst")
+    flat = prog.fn("cell::get_flat_node_coord_lst")
+    loops = [n for n in walk(flat["body"]) if n.get("k") == "CXXForRangeStmt" and render(n["range"]) == "node_lst_"]
+    pushes = [x for x in walk(loops[0]["body"]) if x.get("k") == "CXXMemberCallExpr" and x.get("callee", "").endswith("::push_back")] if loops else []
+    axes = [strip(call_args(x)[0]).get("callee") for x in pushes]
+    fi = prog.index(flat)
+    if not (axes == ["vec3::dx", "vec3::dy", "vec3::dz"] and all(fi.enclosing(x, ("IfStmt",)) is None for x in pushes)):
+        why.append("get_flat_node_coord_lst does not emit dx,dy,dz for every element of node_lst_ unconditionally")
+    if not why:
+        rep.ok("C16.declared-counts", prog, wfile, pl[0][1], "POINTS count = last partial sum of node_lst_.size(); coordinates = (dx,dy,dz) of every element of node_lst_")
     else:
-        rep.violation("C16.declared-counts", prog, wcell, decl[0] if decl else None, "cell record length / content inconsistent", "per-cell record: declared length 1+4F: %s; faces written as '3 a b c' with get_node_ids() of size 3: %s/%s; node ids offset by node_id_offset_lst[i]: %s" % (rec_ok, lit3, arr3, bool(off)))
-    # CELLS header counts and CELL_TYPES
-    nbc = [n for n in walk(wcell["body"]) if n.get("k") == "Var" and n.get("name") == "nb_cells"]
-    tot = [n for n in walk(wcell["body"]) if n.get("k") == "Var" and n.get("name") == "nb_integer_tissue"]
-    loops = [n for n in walk(wcell["body"]) if n.get("k") == "ForStmt"]
-    ok2 = bool(nbc) and render(nbc[0]["init"]).replace(" ", "") == "cell_lst.size()" and bool(tot) and "std::accumulate" in render(tot[0]["init"]) and "cell_int_size" in render(tot[0]["init"]) and "cell_lst.size()" in render(tot[0]["init"]).replace(" ", "")
-    rec_loop = [l for l in loops if "cell_lst.size()" in render(l["cond"]).replace(" ", "")]
-    ty_loop = [l for l in loops if "nb_cells" in render(l["cond"]) and any(x.get("k") == "StringLiteral" and x.get("v") == "42\n" for x in walk(l["body"]))]
-    if ok2 and rec_loop and ty_loop:
-        rep.ok("C16.declared-counts", prog, wcell, nbc[0], "CELLS declares cell_lst.size() records and sum(declared)+n integers; one record per cell; CELL_TYPES emits nb_cells lines of 42")
+        rep.violation("C16.declared-counts", prog, wfile, pl[0][1] if pl else None, "declared number of points differs from the coordinates written", "write_cell_data_file: " + "; ".join(why))
+
+    # ---- per-cell record
+    lst = [p_["name"] for p_ in wcell["params"] if "shared_ptr<cell>" in p_["t"]][0]
+    offs = [p_["name"] for p_ in wcell["params"] if "size_t" in p_["t"] or "unsigned long" in p_["t"]]
+    why = []
+    em = _emissions(wcell)
+    # the cell loop: the loop over the cell list that streams something
+    cell_loops = [l for l in walk(wcell["body"]) if l.get("k") in ("ForStmt", "CXXForRangeStmt") and _is_cell_count(_loop_bound_text(wcell, l) or "", lst)
+                  and any(any(n is x for x in walk(l["body"])) for t, n in em if t != "42\n")]
+    rec_site = None
+    if len(cell_loops) != 1:
+        why.append("%d loops over the cell list write records" % len(cell_loops))
     else:
-        rep.violation("C16.declared-counts", prog, wcell, nbc[0] if nbc else None, "CELLS / CELL_TYPES counts inconsistent", "CELLS must declare cell_lst.size() records and accumulate(cell_int_size)+cell_lst.size() integers, emit one record per cell, and CELL_TYPES must emit nb_cells lines '42'")
-    # data arrays
-    fa = prog.index(warr)
-    nb = [n for n in walk(warr["body"]) if n.get("k") == "Var" and n.get("name") == "nb_cells"]
-    loops = [n for n in walk(warr["body"]) if n.get("k") == "ForStmt" and "cell_lst.size()" in render(n["cond"]).replace(" ", "")]
-    ex = [x for x in walk(warr["body"]) if "value_extractor_" in render(x) and is_call(x)]
-    if nb and render(nb[0]["init"]).replace(" ", "") == "cell_lst.size()" and loops and ex:
-        rep.ok("C16.declared-counts", prog, warr, nb[0], "each data array declares cell_lst.size() values and emits one per cell")
+        cl = cell_loops[0]
+        inner = [(t, n) for t, n in em if any(n is x for x in walk(cl["body"]))]
+        # first emission of the record: '<len> <nb faces> '
+        first = inner[0] if inner else None
+        ts = _to_strings(wcell, first[1]) if first else []
+        rec_site = first[1] if first else None
+        if len(ts) != 2:
+            why.append("the record does not start with two integers (length, number of faces)")
+        else:
+            a_len = strip(call_args(ts[0])[0])
+            nbf = expand_text(wcell, call_args(ts[1])[0])
+            if "get_face_lst().size()" not in nbf:
+                why.append("the second integer of the record is not the number of faces (%s)" % nbf[:60])
+            # where does the length come from: V[i] with V filled by push_back(E) / transform(..., lambda)
+            lens = []
+            if a_len.get("k") == "CXXOperatorCallExpr" and a_len.get("op") == "[]":
+                V = render(a_len["c"][1])
+                for x in walk(wcell["body"]):
+                    if x.get("k") == "CXXMemberCallExpr" and x.get("callee", "").split("::")[-1] in ("push_back", "emplace_back") and render(call_obj(x)) == V:
+                        lens.append(expand_text(wcell, call_args(x)[0]))
+                    if x.get("k") == "CallExpr" and x.get("callee", "").startswith("std::transform") and V in render(x):
+                        for lam in walk(x):
+                            if lam.get("k") == "LambdaExpr":
+                                for r in walk(lam["body"]):
+                                    if r.get("k") == "ReturnStmt" and isinstance(r.get("value"), dict):
+                                        lens.append(render(r["value"]).replace(" ", ""))
+            else:
+                lens.append(expand_text(wcell, a_len))
+            if not lens or not all("get_face_lst().size()" in t and re.search(r"\*4|4\*", t) and re.search(r"1\+|\+1", t) for t in lens):
+                why.append("the declared record length is not 1 + 4 * number of faces (%s)" % [t[:50] for t in lens])
+        # faces: '3 a b c'
+        face_loops = [l for l in walk(cl["body"]) if l.get("k") in ("CXXForRangeStmt", "ForStmt") and "get_face_lst()" in expand_text(wcell, l.get("range") or l.get("cond") or {})]
+        if len(face_loops) != 1:
+            why.append("no loop over the faces of the cell inside the record")
+        else:
+            fl = face_loops[0]
+            three = [n for t, n in em if any(n is x for x in walk(fl["body"])) and (t.startswith("3 ") or t.startswith("7 ")) and (t.startswith("3 ") or any(strip(call_args(y)[0]).get("v") in (3, "3") for y in _to_strings(wcell, n)))]
+            ids = [l for l in walk(fl["body"]) if l.get("k") in ("CXXForRangeStmt",) and "get_node_ids" in render(l["range"]) and "std::array<unsigned int, 3>" in strip(l["range"]).get("t", "")]
+            if not three:
+                why.append("faces are not written as '3 a b c'")
+            if len(ids) != 1:
+                why.append("the node ids written are not the three ids of get_node_ids()")
+            else:
+                good = False
+                for t, n in em:
+                    if any(n is x for x in walk(ids[0]["body"])):
+                        for y in _to_strings(wcell, n):
+                            a = strip(call_args(y)[0])
+                            if a.get("k") == "BinaryOperator" and a.get("op") == "+":
+                                parts = [expand_text(wcell, a["c"][0]).strip("()"), expand_text(wcell, a["c"][1]).strip("()")]
+                                var = ids[0]["var"]["name"]
+                                idx = None
+                                if cl.get("k") == "ForStmt":
+                                    try:
+                                        idx = cl["init"]["decls"][0]["name"]
+                                    except (KeyError, IndexError, TypeError):
+                                        idx = None
+                                other = [p_ for p_ in parts if p_ != var]
+                                if var in parts and len(other) == 1 and idx and any(other[0] == "%s[%s]" % (o, idx) for o in offs):
+                                    good = True
+                if not good:
+                    why.append("node ids are not offset by the offset of their own cell (offset list[cell index])")
+    if not why:
+        rep.ok("C16.declared-counts", prog, wcell, rec_site, "cell record: declares 1+4F integers; emits F, then per face the literal 3 and the 3 node ids + the cell's own offset")
     else:
-        rep.violation("C16.declared-counts", prog, warr, nb[0] if nb else None, "data array length differs from the values written", "add_cell_data_arrays_to_mesh must declare cell_lst.size() values per array and emit exactly one value per cell")
+        rep.violation("C16.declared-counts", prog, wcell, rec_site, "cell record length / content inconsistent", "write_cell_data: " + "; ".join(why))
+
+    # ---- CELLS header and CELL_TYPES
+    why = []
+    ch = [(t, n) for t, n in em if "CELLS " in t]
+    ct = [(t, n) for t, n in em if "CELL_TYPES " in t]
+    site = ch[0][1] if ch else None
+    if not ch or not ct:
+        why.append("CELLS / CELL_TYPES header missing")
+    else:
+        ts = _to_strings(wcell, ch[0][1])
+        if len(ts) != 2 or not _is_cell_count(expand_text(wcell, call_args(ts[0])[0]), lst):
+            why.append("CELLS does not declare %s.size() records" % lst)
+        if len(ts) == 2:
+            tot = expand_text(wcell, call_args(ts[1])[0])
+            if not ("std::accumulate(" in tot and "%s.size()" % lst in tot):
+                why.append("the total number of integers is not accumulate(record lengths) + number of cells (%s)" % tot[:80])
+        ts2 = _to_strings(wcell, ct[0][1])
+        if len(ts2) != 1 or not _is_cell_count(expand_text(wcell, call_args(ts2[0])[0]), lst):
+            why.append("CELL_TYPES does not declare %s.size() entries" % lst)
+        ty_loops = [l for l in walk(wcell["body"]) if l.get("k") in ("ForStmt", "CXXForRangeStmt") and any(t == "42\n" and any(n is x for x in walk(l["body"])) for t, n in em)]
+        if len(ty_loops) != 1 or not _is_cell_count(_loop_bound_text(wcell, ty_loops[0]) or "", lst):
+            why.append("CELL_TYPES does not emit one '42' line per cell")
+    if not why:
+        rep.ok("C16.declared-counts", prog, wcell, site, "CELLS declares cell_lst.size() records and sum(declared)+n integers; one record per cell; CELL_TYPES emits one 42 per cell")
+    else:
+        rep.violation("C16.declared-counts", prog, wcell, site, "CELLS / CELL_TYPES counts inconsistent", "write_cell_data: " + "; ".join(why))
+
+    # ---- data arrays
+    why = []
+    ema = _emissions(warr)
+    lsta = [p_["name"] for p_ in warr["params"] if "shared_ptr<cell>" in p_["t"]][0]
+    hdr = [(t, n) for t, n in ema if "<value_name_>" in t]
+    site = hdr[0][1] if hdr else None
+    if not hdr:
+        why.append("no field header")
+    else:
+        ts = _to_strings(warr, hdr[0][1])
+        if len(ts) != 1 or not _is_cell_count(expand_text(warr, call_args(ts[0])[0]), lsta):
+            why.append("the array does not declare %s.size() values" % lsta)
+    vloops = [l for l in walk(warr["body"]) if l.get("k") in ("ForStmt", "CXXForRangeStmt") and _is_cell_count(_loop_bound_text(warr, l) or "", lsta)]
+    if len(vloops) != 1:
+        why.append("%d loops over the cells" % len(vloops))
+    else:
+        vals = [(t, n) for t, n in ema if any(n is x for x in walk(vloops[0]["body"]))]
+        ex = [x for t, n in vals for x in walk(n) if is_call(x) and "value_extractor_" in render(x)]
+        if len(vals) != 1 or not ex or prog.index(warr).enclosing(vals[0][1], ("IfStmt",)) is not None and any(prog.index(warr).enclosing(vals[0][1], ("IfStmt",)) is x for x in walk(vloops[0]["body"])):
+            why.append("the loop does not emit exactly one extracted value per cell")
+    if not why:
+        rep.ok("C16.declared-counts", prog, warr, site, "each data array declares cell_lst.size() values and emits one per cell")
+    else:
+        rep.violation("C16.declared-counts", prog, warr, site, "data array length differs from the values written", "add_cell_data_arrays_to_mesh: " + "; ".join(why))
 
 
 def reader_conventions(rep, prog, r_faces):
@@ -341,6 +486,18 @@ def array_extent(rep, prog, sections, warr):
         for nm, (pat, node) in rx.items():
             if LETTER_CLASS.match(pat) and fi.order[id(node)] > fi.order[id(hnode)]:
                 used = [c for c in walk(fn["body"]) if is_call(c) and c.get("callee", "").startswith("std::regex_search") and any(x.get("k") == "DeclRefExpr" and x["ref"].get("did") == node.get("did") for x in walk(c))]
+                if not used:
+                    # wrapper: the regex is handed to a helper of the repository whose parameter reaches std::regex_search
+                    for c in walk(fn["body"]):
+                        if not is_call(c) or not c.get("ckey"):
+                            continue
+                        for ai, a in enumerate(call_args(c)):
+                            if strip(a).get("k") == "DeclRefExpr" and strip(a)["ref"].get("did") == node.get("did"):
+                                g = prog.functions.get(c["ckey"])
+                                if g and isinstance(g.get("body"), dict) and ai < len(g.get("params", [])):
+                                    pd = g["params"][ai]["did"]
+                                    if any(is_call(y) and y.get("callee", "").startswith("std::regex_search") and any(z.get("k") == "DeclRefExpr" and z["ref"].get("did") == pd for z in walk(y)) for y in walk(g["body"])):
+                                        used.append(c)
                 if used:
                     terms.append((fi.order[id(node)], nm, pat, node))
         terms.sort()
